@@ -37,7 +37,7 @@ structure St where
 
 def note (st : St) (s : String) : St := { st with notes := st.notes ++ [s] }
 def corrFail (st : St) (s : String) : St := note { st with corrOk := false } s
-def judgeFail (st : St) (s : String) : St := note { st with judgeOk := false } s
+def judgeFail (st : St) (s : String) : St := { st with judgeOk := false, notes := s :: st.notes }
 
 def parseEp : String → Option Endpoint
   | "adv" => some .adv
